@@ -40,6 +40,8 @@ pub struct SenderCtl {
 	pub sends: AtomicUsize,
 	/// if Some((n, text)): the n-th send from the start (0-based) and every later one fails with `text`
 	pub fail_from: Mutex<Option<(usize, String)>>,
+	/// if Some((n, text)): exactly the n-th send (0-based) fails with `text`, later ones work again
+	pub fail_once_at: Mutex<Option<(usize, String)>>,
 	/// if set, `close()` waits for this gate before returning
 	pub close_gate: Mutex<Option<Arc<Notify>>>,
 	/// number of `close` calls
@@ -88,6 +90,11 @@ impl TransportSenderT for ScriptSender {
 			let n = self.ctl.sends.fetch_add(1, Ordering::SeqCst);
 			if let Some((from, text)) = self.ctl.fail_from.lock().unwrap().clone() {
 				if n >= from {
+					return Err(ScriptError(text));
+				}
+			}
+			if let Some((at, text)) = self.ctl.fail_once_at.lock().unwrap().clone() {
+				if n == at {
 					return Err(ScriptError(text));
 				}
 			}
